@@ -417,8 +417,30 @@ func (rn *runner[G, S]) runHistory(p histParams) *histCase[G, S] {
 	if r.Chance(1, 3) {
 		pool = poolWide
 	}
+	// two histories out of three prefer structures that have STRICT qualified subsets of two or more
+	// holders (so that steps are driven by a proper part of the holders while the others continue)
+	preferStrict := p.idx%3 != 0
+	hasStrict := func(e *epoch[G, S]) bool {
+		all, _ := e.qualifiedSets(0)
+		for _, q := range all {
+			if len(q) < len(e.holders) {
+				return true
+			}
+		}
+		return false
+	}
+	gen := func(h []uint64) *epoch[G, S] {
+		e := rn.genEpoch(r, h, p.fams)
+		for t := 0; preferStrict && t < 6 && !hasStrict(e); t++ {
+			e = rn.genEpoch(r, h, p.fams)
+		}
+		return e
+	}
 	n0 := 2 + r.Intn(p.maxHolders-1)
-	cur := rn.genEpoch(r, pickDistinct(r, pool, n0, nil), p.fams)
+	if preferStrict && n0 < 3 && p.maxHolders >= 3 {
+		n0 = 3 + r.Intn(p.maxHolders-2)
+	}
+	cur := gen(pickDistinct(r, pool, n0, nil))
 	hc.ops = append(hc.ops, "genesis "+cur.pol.Text())
 
 	// first epoch: the trusted dealer, with a recording tape
@@ -491,11 +513,24 @@ func (rn *runner[G, S]) runHistory(p histParams) *histCase[G, S] {
 			break
 		}
 		var quorum []uint64
-		switch {
-		case kind == "refresh" && r.Chance(1, 2) && cur.qualified(cur.holders):
-			quorum = cur.holders
-		case len(minimal) > 0 && r.Chance(1, 2):
-			quorum = vh.Pick(r, minimal)
+		var strictMin, strictAny [][]uint64
+		for _, q := range minimal {
+			if len(q) < len(cur.holders) {
+				strictMin = append(strictMin, q)
+			}
+		}
+		for _, q := range all {
+			if len(q) < len(cur.holders) {
+				strictAny = append(strictAny, q)
+			}
+		}
+		switch k := r.Intn(100); {
+		case k < 25 && lost == 0 && cur.qualified(cur.holders) && len(cur.holders) >= 2:
+			quorum = cur.holders // the full holder set drives
+		case k < 60 && len(strictMin) > 0:
+			quorum = vh.Pick(r, strictMin) // a strict minimal qualified subset
+		case len(strictAny) > 0:
+			quorum = vh.Pick(r, strictAny) // a strict qualified subset, minimal or not
 		default:
 			quorum = vh.Pick(r, all)
 		}
@@ -530,7 +565,7 @@ func (rn *runner[G, S]) runHistory(p histParams) *histCase[G, S] {
 			if len(hs) < 2 {
 				hs = cur.holders
 			}
-			ne := rn.genEpoch(r, hs, p.fams)
+			ne := gen(hs)
 			next = &epoch[G, S]{pol: ne.pol, ac: ne.ac, m: ne.m, sch: ne.sch, holders: ne.holders, shards: map[uint64]*mpc.BaseShard[G, S]{}}
 		} else {
 			next = &epoch[G, S]{pol: cur.pol, ac: cur.ac, m: cur.m, sch: cur.sch, holders: cur.holders, shards: map[uint64]*mpc.BaseShard[G, S]{}}
@@ -549,8 +584,35 @@ func (rn *runner[G, S]) runHistory(p histParams) *histCase[G, S] {
 
 		// ---- run the implementation
 		prevShards := map[sharing.ID]*mpc.BaseShard[G, S]{}
+		inQ := map[uint64]bool{}
 		for _, j := range quorum {
 			prevShards[sharing.ID(j)] = cur.shards[j]
+			inQ[j] = true
+		}
+		// every continuing holder outside the driving quorum independently passes the (valid) shard it
+		// still holds, or nil — both are legal uses of NewParticipant; a holder whose share is lost passes nil
+		var passing, notPassing []uint64
+		for _, h := range next.holders {
+			if inQ[h] || cur.shards[h] == nil || (kind == "recover" && h == lost) {
+				continue
+			}
+			if r.Chance(1, 2) {
+				prevShards[sharing.ID(h)] = cur.shards[h]
+				passing = append(passing, h)
+			} else {
+				notPassing = append(notPassing, h)
+			}
+		}
+		if len(passing) > 0 {
+			hc.ops[len(hc.ops)-1] += " nondrivers-passing-shard=" + idsText(passing)
+			cs = caseText(step)
+			rn.res.Distribution["steps where a non-driving holder passes its shard"]++
+		}
+		if len(notPassing) > 0 {
+			rn.res.Distribution["steps where a non-driving holder passes nil"]++
+		}
+		if len(quorum) < len(cur.holders) {
+			rn.res.Distribution["steps driven by a strict subset of the holders"]++
 		}
 		labels := map[sharing.ID]string{}
 		partySet := map[uint64]bool{}
@@ -601,7 +663,46 @@ func (rn *runner[G, S]) runHistory(p histParams) *histCase[G, S] {
 
 		if !allOK {
 			// an honest step must complete: the key material of the next epoch does not exist otherwise
-			rn.propFail(id, "honest-"+kind+"-rejected", fmt.Sprintf("step %d (%s): %s", step, desc, strings.Join(bad, " ")), cs,
+			key := "honest-" + kind + "-rejected"
+			detail := fmt.Sprintf("step %d (%s): %s", step, hc.ops[len(hc.ops)-1], strings.Join(bad, " "))
+			nondriverAbort := false
+			for _, pid := range full.IDs {
+				if v := tr.Verdicts[pid]; v.Class != "ok" && !inQ[uint64(pid)] {
+					nondriverAbort = true
+				}
+			}
+			if nondriverAbort {
+				key = "honest-step-aborts-at-nondriver"
+				// the step is applied partially: who moved on holds the new epoch, who aborted keeps the old one
+				if cur.m.Equal(next.m) {
+					eff := map[uint64]*mpc.BaseShard[G, S]{}
+					var moved, stayed []uint64
+					for _, h := range next.holders {
+						if next.shards[h] != nil {
+							eff[h] = next.shards[h]
+							moved = append(moved, h)
+						} else if cur.shards[h] != nil {
+							eff[h] = cur.shards[h]
+							stayed = append(stayed, h)
+						}
+					}
+					detail += fmt.Sprintf(" | partially applied: new epoch %v, old epoch %v", moved, stayed)
+					for mask := 1; mask < 1<<len(next.holders); mask++ {
+						set := subsetOf(next.holders, mask)
+						if !next.qualified(set) || len(sharesOf(eff, set)) != len(set) {
+							continue
+						}
+						var sec *kw.Secret[S]
+						var rerr error
+						vh.Safely(func() { sec, rerr = next.sch.Reconstruct(sharesOf(eff, set)...) })
+						if rerr != nil || bigOf(sec.Value()).Cmp(s0) != 0 {
+							detail += fmt.Sprintf("; qualified set %v no longer reconstructs the secret", set)
+							break
+						}
+					}
+				}
+			}
+			rn.propFail(id, key, detail, cs,
 				"C06_redist_step_preserves: an honest step ends with verifying shares of the same key (completeness)")
 			hc.items = append(hc.items, expItem[G, S]{kind: 'W', world: &expWorld[G, S]{performed: false}, desc: desc})
 			hc.steps = step
@@ -1474,7 +1575,7 @@ func main() {
 	debug.SetGCPercent(200) // the protocol code allocates heavily; the harness is short-lived
 	a := vh.ParseArgs()
 	res := vh.NewResult(prop, a.Seed, a.Tier)
-	res.Rule = "histories: random policy of a random family (threshold, unanimity, CNF, hierarchical, gate tree with repeated leaves) on 2..maxholders ids (ordinal or sparse/large), dealt by the trusted dealer; then 1..maxlen steps drawn from {refresh 30%, recover a lost share 25%, redistribute to a new family/holder set with leavers and newcomers 45%}, driving quorum = all holders / a minimal / any qualified set, trusted anchor 50%; non-trivial = at least one step performed. after each step one observation (reconstruct over a random qualified set through the library's coefficients) and up to 3 mixed-epoch sets (a minimal qualified set split between the previous and the new epoch, same MSP); signing with post-epoch shards on the last step. hjky: every family, honest and with one dealer dealing a non-zero value. deviation: one previous holder re-deals a wrong value consistently and/or broadcasts a wrong previous vector. refused: unqualified driving set."
+	res.Rule = "histories: random policy of a random family (threshold, unanimity, CNF, hierarchical, gate tree with repeated leaves) on 2..maxholders ids (ordinal or sparse/large), dealt by the trusted dealer; then 1..maxlen steps drawn from {refresh 30%, recover a lost share 25%, redistribute to a new family/holder set with leavers and newcomers 45%}, driving quorum = all holders 25% / a strict minimal qualified subset / a strict non-minimal one (two histories of three prefer structures that have strict qualified subsets), every continuing holder outside the driving quorum independently passes its current shard or nil to NewParticipant, trusted anchor 50%; non-trivial = at least one step performed. after each step one observation (reconstruct over a random qualified set through the library's coefficients) and up to 3 mixed-epoch sets (a minimal qualified set split between the previous and the new epoch, same MSP); signing with post-epoch shards on the last step. hjky: every family, honest and with one dealer dealing a non-zero value. deviation: one previous holder re-deals a wrong value consistently and/or broadcasts a wrong previous vector. refused: unqualified driving set."
 	var only map[string]string
 	if a.Replay != "" {
 		b, err := os.ReadFile(a.Replay)
